@@ -356,6 +356,24 @@ pub fn c12(ctx: &mut Ctx) {
             run_jobs(ctx, "VALIDATE", std::mem::take(&mut jobs));
         }
     }
+    // a form body consisting of separators only parses to zero parameters but is still a folded form:
+    // the payload hash is that of the empty body
+    for sep in [&b"&"[..], b"&&&", b"&=&", b"="] {
+        for carrier in [Carrier::Header, Carrier::Query] {
+            let mut l = simple_logical(carrier, 1_440_938_160_000_000_000);
+            l.method = "POST".into();
+            l.fold = true;
+            l.content_type = Some("application/x-www-form-urlencoded".into());
+            l.form = Some(if sep.contains(&b'=') { vec![(Vec::new(), Vec::new())] } else { vec![] });
+            l.signed.push("content-type".into());
+            let now = now_for(&l, 0);
+            let mut s = sign_and_spell(&l, &mut rng, &Spelling::plain(), now);
+            s.case.body = sep.to_vec();
+            let mut j = job(s.case, Expect::Accept, "c12-fold-separators-only", "C12: a form body that parses to no (or only an empty) parameter is still folded: payload hash of the empty body");
+            j.expect_calls = Some(1);
+            jobs.push(j);
+        }
+    }
     // undecodable bodies under folding
     for _ in 0..ctx.n(100, 2000) {
         let mut l = simple_logical(Carrier::Header, 1_440_938_160_000_000_000);
@@ -676,6 +694,64 @@ pub fn c14(ctx: &mut Ctx) {
     }
     run_jobs(ctx, "VALIDATE", jobs);
     let mut jobs = Vec::new();
+    // a defective request in front of a provider whose readiness is slow or failing: the request's own error
+    // is reported and the provider is not polled at all
+    for k in 0..ctx.n(60, 600) {
+        let carrier = if k % 2 == 0 { Carrier::Header } else { Carrier::Query };
+        let (mut c, expect, deciding) = build_defective(&carrier, 1u32 << (k % 12), &mut rng);
+        if expect.is_none() || deciding.map(|d| d >= 12).unwrap_or(true) {
+            continue;
+        }
+        c.pending_ready = 1 + (k % 3) as u32;
+        c.ready_err = if k % 4 < 2 { Some(ProvErr::Foreign) } else { Some(ProvErr::Sig("InvalidClientTokenId")) };
+        let mut jb = job(c, Expect::Refuse(expect), "c14-defective-unready-provider", "C14: a request failing a pre-check must get its own error without the provider's readiness being polled");
+        jb.expect_calls = Some(0);
+        jobs.push(jb);
+    }
+    let done = run_jobs(ctx, "VALIDATE", std::mem::take(&mut jobs));
+    for d in done {
+        if d.imp.ready_polls > 0 {
+            ctx.rep.fail(Failure { kind: "ORACLE", op: "VALIDATE".into(), class: "c14-defective-unready-provider".into(), input: d.imp_line.clone(), imp: format!("{} readiness polls", d.imp.ready_polls), model: d.model_line, spec: "0".into(), clause: "C14: the provider's readiness was polled for a request that fails a pre-check".into() });
+        }
+    }
+    // poll-level correspondence with the model of the polled future (SigV4/Model/Poll.lean): number of
+    // executor polls, readiness polls and answer-future polls
+    {
+        let mut lines = Vec::new();
+        let mut imps = Vec::new();
+        for k in 0..ctx.n(150, 3000) {
+            let l = if k % 3 == 0 { random_logical(&mut rng) } else { simple_logical(if k % 2 == 0 { Carrier::Header } else { Carrier::Query }, 1_440_938_160_000_000_000) };
+            let now = now_for(&l, if k % 7 == 6 { 2_000_000_000_000 } else { 0 });
+            let s = sign_and_spell(&l, &mut rng, &Spelling::plain(), now);
+            let mut c = s.case;
+            c.pending_ready = rng.below(5) as u32;
+            c.pending_answer = rng.below(5) as u32;
+            match k % 5 {
+                1 => c.ready_err = Some(ProvErr::Foreign),
+                2 => c.answer = Answer::Err(ProvErr::Sig("ExpiredToken")),
+                3 => c.region = "elsewhere".into(),
+                _ => {}
+            }
+            let req = match imp::build_request(&c) { Some(r) => r, None => continue };
+            let path = req.uri().path().to_string();
+            let query = req.uri().query().map(|q| q.to_string());
+            lines.push(format!("POLL {} {} {}", c.pending_ready, c.pending_answer, c.fields(&path, query.as_deref(), &other_for(&c))));
+            let mut prov = imp::provider_for(vec![imp::entry_of(&c)]);
+            let v = imp::validate_with(&c, req, &mut prov);
+            imps.push(format!("{} POLLS {} READY {} FUT {} CALLS {}", v.class.split(' ').take(2).collect::<Vec<_>>().join(" "), v.polls, v.ready_polls, v.future_polls, v.calls.len()));
+        }
+        let models = ctx.drv.ask_all(&lines);
+        for ((line, im), mo) in lines.iter().zip(imps.iter()).zip(models.iter()) {
+            ctx.rep.count("evaluations");
+            ctx.rep.count("evaluations.POLL");
+            ctx.rep.count("traces_validated_against_impl");
+            ctx.rep.distinct(&format!("{}|{}", line, im));
+            if im != mo {
+                ctx.rep.fail(Failure { kind: "CORR", op: "POLL".into(), class: "c14-poll".into(), input: line.clone(), imp: im.clone(), model: mo.clone(), spec: String::new(), clause: "implementation and polled-future model disagree on outcome, number of polls, readiness polls, answer polls or calls".into() });
+            }
+        }
+    }
+    let mut jobs = Vec::new();
     // freshness at sub-second resolution: just outside the window must not reach the provider
     for k in 0..ctx.n(40, 400) {
         let mut l = simple_logical(if k % 2 == 0 { Carrier::Header } else { Carrier::Query }, 1_440_938_160_000_000_000 + (k as i128 % 5) * 200_000_000);
@@ -833,6 +909,27 @@ pub fn c15(ctx: &mut Ctx) {
 
 fn check_passthrough(ctx: &mut Ctx, done: Vec<Done>) {
     for d in done {
+        // the same request through the other body conversions (Vec<u8>, and () for an empty body) and through
+        // the `service_for_signing_key_fn` adapter: same outcome, same returned request
+        {
+            let c = &d.job.case;
+            let base = imp::validate_variant(c, 0, false);
+            let mut variants = vec![(1u8, false), (0u8, true), (1u8, true)];
+            if c.body.is_empty() {
+                variants.push((2, false));
+            }
+            for (kind, adapter) in variants {
+                if adapter && c.ready_err.is_some() {
+                    continue; // the closure adapter is always ready
+                }
+                let v = imp::validate_variant(c, kind, adapter);
+                ctx.rep.count("evaluations");
+                ctx.rep.count("evaluations.body_kind_or_adapter");
+                if v != base || base.as_ref().map(|b| b.0.clone()) != Some(d.imp.class.clone()) {
+                    ctx.rep.fail(Failure { kind: "ORACLE", op: "VALIDATE".into(), class: "c15-body-kind".into(), input: d.imp_line.clone(), imp: format!("{:?}", v.map(|x| x.0)), model: d.model_line.clone(), spec: format!("{:?} / {}", base.as_ref().map(|x| x.0.clone()), d.imp.class), clause: format!("C15: the outcome or the returned request depends on the body type handed in (kind {}) or on the provider adapter ({}) — {}", kind, adapter, c.describe()) });
+                }
+            }
+        }
         let r = match &d.imp.returned {
             Some(r) => r,
             None => continue,
